@@ -5,7 +5,7 @@ from hypothesis import strategies as st
 from engine import lib, scen, spec_order, xforms, zz9enc
 from engine.oracle import (Oracle, apparent_dims, empty_cols, empty_rows,
                            empty_strand_rows)
-from engine.runner import SubCheck
+from engine.runner import SubCheck, fuzz_subcheck
 from props.c07 import _refs
 
 PROPERTY = "C09"
@@ -229,4 +229,5 @@ SUBCHECKS = [
     SubCheck("strands", case_st([("cat",), ("mr",), ("mr",), ("cat_date",), ("na",), ("datetime",),
                                  ("text",)]), judge,
              quick=1200, thorough=20000),
+    fuzz_subcheck("fuzz-slices", "slices", quick_runs=0, thorough_runs=8000),
 ]
